@@ -5,6 +5,7 @@ package main
 
 import (
 	"fmt"
+	"math/big"
 	"go/ast"
 	"go/token"
 	"go/types"
@@ -510,6 +511,47 @@ func sameTerms(a, b []Term) bool {
 // ---------------------------------------------------------------------------
 // Go types -> sorts
 
+// varSort is the sort of a variable: uint64 variables declared `ints` in the contract hold
+// numbers (Int) even in a word-mode function.
+func (e *Exec) varSort(o types.Object) Sort {
+	if e.wordMode && o != nil && e.isIntVar(o.Name()) {
+		if b, ok := types.Unalias(o.Type()).Underlying().(*types.Basic); ok && b.Kind() == types.Uint64 {
+			return SInt
+		}
+	}
+	return e.sortOf(o.Type())
+}
+
+func (e *Exec) isIntVar(name string) bool {
+	ct := e.contract
+	if e.depth > 0 {
+		ct = e.inlineContract
+	}
+	if ct == nil {
+		return false
+	}
+	for _, n := range ct.Ints {
+		if n == name {
+			return true
+		}
+	}
+	return false
+}
+
+// resultSort: sort of result i of a contracted callee as seen by its callers.
+func (e *Exec) resultSort(ct *Contract, i int, rt types.Type) Sort {
+	if ct != nil {
+		for _, n := range ct.Ints {
+			if n == "res" || n == fmt.Sprintf("res%d", i) {
+				if b, ok := types.Unalias(rt).Underlying().(*types.Basic); ok && b.Kind() == types.Uint64 {
+					return SInt
+				}
+			}
+		}
+	}
+	return e.sortOf(rt)
+}
+
 func (e *Exec) isWord(t types.Type) bool {
 	b, ok := t.Underlying().(*types.Basic)
 	return ok && b.Kind() == types.Uint64 && e.wordMode
@@ -951,6 +993,14 @@ func (e *Exec) toSort(v Term, want Sort) Term {
 		return v
 	}
 	if v.Sort == SBV64 && want == SInt {
+		if strings.HasPrefix(v.S, "((_ int2bv 64) ") {
+			return Mod(Term{v.S[len("((_ int2bv 64) ") : len(v.S)-1], SInt}, pow2(64))
+		}
+		if strings.HasPrefix(v.S, "#x") && len(v.S) == 18 {
+			n := new(big.Int)
+			n.SetString(v.S[2:], 16)
+			return IntLitS(n.String())
+		}
 		return mk(SInt, "bv2nat", v)
 	}
 	if v.Sort == SInt && want == SBV64 {
